@@ -255,6 +255,17 @@ class Engine:
         self.inputs[name] = ('rat', var, flav)
         return P.SymDec(var) if flav == 'dec' else P.SymFrac(var)
 
+    def rational_over(self, name, den, flav='frac'):
+        """an arbitrary rational with the concrete denominator `den`: N / den, N an unbounded integer
+        (its numerator / denominator are then linear, see proxies._linear_over_grid)"""
+        from . import proxies as P
+        var = z3.Int(name)
+        self.inputs[name] = ('int', var, 'int')
+        self.grid_vars = [var]
+        self.grid_den = den
+        z = z3.ToReal(var) / den
+        return P.SymFrac(z) if flav == 'frac' else P.SymDec(z)
+
     def integer(self, name, lo=None, hi=None):
         from . import proxies as P
         var = z3.Int(name)
